@@ -107,6 +107,16 @@ def fork(ctx, cfg, fs):
     ctx.ob('F.fork', 'ParseOrElse::eval:no-direct-adoption', not sw, 'ParseOrElse::eval itself adopts no fork (%d swaps); this_or_that_picks_first decides' % len(sw), where=b.where(), cfg=cfg)
     # selection: true -> res_a, false -> res_b
     pf = [c for c in b.calls() if c.is_(r'^structs::this_or_that_picks_first$')]
+    # .. and this_or_that_picks_first decides EVERY outcome: no return of ParseOrElse::eval is reachable without passing its call, and both
+    # alternatives have been evaluated when it is called (an early return on one alternative's error never looks at what the user typed for the other)
+    if pf:
+        pfb = {c.bb for c in pf}
+        early = sorted(r for r in b.return_blocks() if r in reachable_edges(b, 0, avoid=pfb))
+        both = all(b.dominates(e.bb, c.bb) for e in evals for c in pf)
+        ctx.ob('F.fork', 'ParseOrElse::eval:both-before-decision', both and not early,
+               'every return of ParseOrElse::eval passes this_or_that_picks_first with both alternatives evaluated' if both and not early else
+               'ParseOrElse::eval can return without consulting this_or_that_picks_first (%d early return(s)) or decides before both alternatives ran' % len(early),
+               where=b.where(early[0]) if early else b.where(), cfg=cfg)
     ok = False; detail = ''
     if len(pf) == 1:
         # the bool comes from Try::branch(Continue)
